@@ -195,6 +195,8 @@ def build_ann(s, env, spelling=None, preds=None):
         return env["__custom__"][s[1]]
     if k == "obj":
         return typing.Any if sp.get("obj") == "any" else object
+    if k == "anyT":  # typing.Any written inside another type (type[Any], type[list[Any]]); counts as object
+        return typing.Any
     if k == "union":
         how = sp.get("union", "typing")
         members = [build_ann(x, env, ({"union": "ovld", "inter": sp.get("inter")} if how == "ovld" else None), preds)
